@@ -160,59 +160,16 @@ mod vh_popen {
         }
     }
 
-    /// Explicit case split: the closure body is symbolically executed once per
-    /// value with that value *concrete*.  CBMC's symex only prunes branches whose
-    /// guard is syntactically constant; a merged (ite) redirection kind makes it
-    /// explore the product of all correlated branches with junk pointers (measured:
-    /// out of memory for a single symbolic Pipe/None choice, 3 s per concrete
-    /// configuration).  The split keeps the configuration a symbolic variable
-    /// decided by the solver, but every control-relevant value constant per case.
-    #[inline(never)]
-    pub fn split_rk<F: Fn(RK)>(f: F) {
-        let k: u8 = kani::any();
-        kani::assume(k < 5);
-        match k {
-            0 => f(RK::None),
-            1 => f(RK::Pipe),
-            2 => f(RK::Merge),
-            3 => f(RK::File),
-            _ => f(RK::RcFile),
-        }
+    /// A fully symbolic stream configuration.
+    pub fn any_kinds() -> [RK; 3] {
+        [any_rk(), any_rk(), any_rk()]
     }
 
-    #[inline(never)]
-    pub fn split_bool<F: Fn(bool)>(f: F) {
-        if kani::any() {
-            f(true)
-        } else {
-            f(false)
-        }
-    }
-
-    pub fn n_rc(kinds: [RK; 3]) -> usize {
-        (kinds[0] == RK::RcFile) as usize + (kinds[1] == RK::RcFile) as usize + (kinds[2] == RK::RcFile) as usize
-    }
-
-    /// Run `f` for every stream configuration whose stdin kind is `s0`.
-    pub fn for_all_cfg<F: Fn([RK; 3], bool)>(s0: RK, f: F) {
-        split_rk(|s1| {
-            split_rk(|s2| {
-                let kinds = [s0, s1, s2];
-                if n_rc(kinds) >= 2 {
-                    split_bool(|sh| f(kinds, sh));
-                } else {
-                    f(kinds, false);
-                }
-            })
-        })
-    }
-
-    /// Child role: real Popen::create with one stream configuration runs
-    /// through setup_streams / prep_exec / fork(=0) / do_exec to the model
-    /// exec, where the wiring (C05), leak (C08) and signal (C18) assertions sit.
-    pub unsafe fn spawn_child(p: P, kinds: [RK; 3], rc_shared: bool, earlier: u8) {
+    /// Child role: real Popen::create with a symbolic stream configuration runs
+    /// through setup_streams / prep_exec / fork(=0) / do_exec to the model exec,
+    /// where the wiring (C05), leak (C08) and signal (C18) assertions sit.
+    pub unsafe fn spawn_child(kinds: [RK; 3], rc_shared: bool, earlier: u8) {
         mk::reset();
-        mk::FOCUS = p;
         pre_state(earlier);
         mk::sig::MASK = kani::any();
         mk::sig::SIGPIPE_IGNORED = true;
@@ -243,21 +200,158 @@ mod vh_popen {
         std::mem::forget(res);
     }
 
-    macro_rules! spawn_child_harness {
-        ($name:ident, $p:ident, $s0:expr, $earlier:expr) => {
-            #[kani::proof]
-            #[kani::stub(get_standard_stream, gss)]
-            #[kani::stub(crate::posix::fcntl, crate::mk::fcntl_model)]
-            fn $name() {
-                mk::link_model();
-                for_all_cfg($s0, |kinds, sh| unsafe { spawn_child(P::$p, kinds, sh, $earlier) });
-            }
-        };
+    #[kani::proof]
+    #[kani::stub(get_standard_stream, gss)]
+    #[kani::stub(crate::posix::fcntl, crate::mk::fcntl_model)]
+    fn h_spawn_child() {
+        mk::link_model();
+        let earlier: u8 = kani::any();
+        kani::assume(earlier <= 2);
+        unsafe { spawn_child(any_kinds(), kani::any(), earlier) }
     }
 
-    spawn_child_harness!(h_spawn_child_c05_none, C05, RK::None, 0);
-    spawn_child_harness!(h_spawn_child_c05_pipe, C05, RK::Pipe, 0);
-    spawn_child_harness!(h_spawn_child_c05_file, C05, RK::File, 0);
-    spawn_child_harness!(h_spawn_child_c05_rc, C05, RK::RcFile, 0);
-    spawn_child_harness!(h_spawn_child_c05_merge, C05, RK::Merge, 0);
+    // ------------------------------------------------------------------
+    // Parent role
+    // ------------------------------------------------------------------
+
+    pub unsafe fn fd_of(f: &Option<File>) -> usize {
+        match f {
+            Some(f) => f.as_raw_fd() as usize,
+            None => 0,
+        }
+    }
+
+    /// Parent role: real Popen::create with one stream configuration; fork
+    /// returns a pid.  `fault_at` = k: the k-th faultable call (pipe / fcntl /
+    /// fork) fails with `injected`; `launch_fails`: the forked child reports
+    /// `injected` on the status pipe.  Asserts the parent-side halves of C05,
+    /// C07, C08 and the drop clauses of C12.
+    pub unsafe fn spawn_parent(kinds: [RK; 3], rc_shared: bool, fault_at: u32, launch_fails: bool, injected: i32, detached: bool) {
+        mk::reset();
+        pre_state(2);
+        let file_cloexec: bool = kani::any();
+        let (cfg, r0, r1, r2) = make_streams(kinds, rc_shared, file_cloexec, mk::NPIPES);
+        mp::CHILD_AT_FORK = 0;
+        mp::begin_spawn();
+        if launch_fails {
+            mp::KID_LAUNCH_ERRNO[0] = injected;
+        }
+        mk::FAULT_AT = fault_at;
+        mk::FAULT_ERRNO = injected;
+        let config = PopenConfig {
+            stdin: r0,
+            stdout: r1,
+            stderr: r2,
+            detached,
+            ..Default::default()
+        };
+        let res = Popen::create(&["/p"], config);
+        let something_failed = mk::FAULT_FIRED || (launch_fails && mp::FORKS == 1);
+        match res {
+            Ok(p) => {
+                kani::cover!(true, "COVER/parent-ok");
+                vcheck!(C05, cfg.valid, "C05/invalid-config-logic-error: an invalid stream configuration did not yield LogicError");
+                vcheck!(C07, !something_failed, "C07/ok-iff-started: Popen::create returned a handle although a step of the launch failed");
+                vcheck!(C07, mp::FORKS == 1, "C07/ok-iff-started: handle returned without a forked process");
+                let running = match p.child_state {
+                    ChildState::Running { pid, .. } => pid == 100,
+                    _ => false,
+                };
+                vcheck!(C07, running, "C07/ok-state-running: a fresh handle is not in state Running with the child's pid");
+                // C05: a parent-side handle iff piped, and it is the peer end of the child's pipe
+                vcheck!(C05, p.stdin.is_some() == (kinds[0] == RK::Pipe), "C05/parent-handle-iff-piped: stdin handle present iff piped");
+                vcheck!(C05, p.stdout.is_some() == (kinds[1] == RK::Pipe), "C05/parent-handle-iff-piped: stdout handle present iff piped");
+                vcheck!(C05, p.stderr.is_some() == (kinds[2] == RK::Pipe), "C05/parent-handle-iff-piped: stderr handle present iff piped");
+                if let (Some(f), Some(pi)) = (p.stdin.as_ref(), cfg.pipe_of[0]) {
+                    let e = mk::FDT[f.as_raw_fd() as usize];
+                    vcheck!(C05, e.obj == Obj::PipeW(pi), "C05/parent-end-is-peer: Popen.stdin is not the write end of the child's stdin pipe");
+                    vcheck!(C08, e.cloexec, "C08/parent-end-cloexec: the parent end of the stdin pipe is inheritable after create");
+                }
+                if let (Some(f), Some(pi)) = (p.stdout.as_ref(), cfg.pipe_of[1]) {
+                    let e = mk::FDT[f.as_raw_fd() as usize];
+                    vcheck!(C05, e.obj == Obj::PipeR(pi), "C05/parent-end-is-peer: Popen.stdout is not the read end of the child's stdout pipe");
+                    vcheck!(C08, e.cloexec, "C08/parent-end-cloexec: the parent end of the stdout pipe is inheritable after create");
+                }
+                if let (Some(f), Some(pi)) = (p.stderr.as_ref(), cfg.pipe_of[2]) {
+                    let e = mk::FDT[f.as_raw_fd() as usize];
+                    vcheck!(C05, e.obj == Obj::PipeR(pi), "C05/parent-end-is-peer: Popen.stderr is not the read end of the child's stderr pipe");
+                    vcheck!(C08, e.cloexec, "C08/parent-end-cloexec: the parent end of the stderr pipe is inheritable after create");
+                }
+                // nothing else of this spawn stays open in the parent: the child ends,
+                // the status pipe and the files handed over are closed
+                let keep = [fd_of(&p.stdin), fd_of(&p.stdout), fd_of(&p.stderr)];
+                let mut i = 5;
+                while i < mk::NFD {
+                    if mk::FDT[i].obj != Obj::Closed {
+                        let kept = i == keep[0] || i == keep[1] || i == keep[2];
+                        vcheck!(C08, kept, "C08/child-end-closed-in-parent: after create the parent still holds a descriptor of the spawn that is not one of the exposed parent ends (end-of-file would never propagate)");
+                        vcheck!(C07, kept, "C07/no-extra-descriptor: after a successful create the parent holds a descriptor of the spawn that is not exposed on the Popen");
+                    }
+                    i += 1;
+                }
+                vcheck!(C05, mk::FDT[0].obj == Obj::Std(0) && mk::FDT[1].obj == Obj::Std(1) && mk::FDT[2].obj == Obj::Std(2), "C05/parent-std-untouched: spawning changed the parent's own standard streams");
+                let calls_before = mp::WAITPID_BLOCKING_CALLS;
+                drop(p);
+                vcheck!(C05, mk::FDT[0].obj == Obj::Std(0) && mk::FDT[1].obj == Obj::Std(1) && mk::FDT[2].obj == Obj::Std(2), "C05/parent-std-untouched: dropping the Popen closed one of the parent's own standard streams");
+                vcheck!(C12, detached || mp::KIDS[0].reaped_by_us, "C12/drop-reaps: dropping a non-detached Popen left its child unreaped");
+                vcheck!(C12, !detached || (mp::WAITPID_BLOCKING_CALLS == calls_before && !mp::KIDS[0].reaped_by_us), "C12/detached-drop-never-blocks: dropping a detached Popen waited for or reaped the child");
+            }
+            Err(e) => {
+                kani::cover!(launch_fails && mp::FORKS == 1, "COVER/parent-launch-error");
+                kani::cover!(mk::FAULT_FIRED && mk::FAULT_KIND == 1, "COVER/parent-fault-pipe");
+                kani::cover!(mk::FAULT_FIRED && mk::FAULT_KIND == 2, "COVER/parent-fault-fcntl");
+                kani::cover!(mk::FAULT_FIRED && mk::FAULT_KIND == 3, "COVER/parent-fault-fork");
+                let is_logic = match e {
+                    PopenError::LogicError(_) => true,
+                    _ => false,
+                };
+                vcheck!(C05, cfg.valid || is_logic || mk::FAULT_FIRED, "C05/invalid-config-logic-error: an invalid stream configuration was refused with something else than LogicError");
+                vcheck!(C05, cfg.valid || mp::FORKS == 0, "C05/invalid-config-no-process: a process was started for an invalid stream configuration");
+                vcheck!(C05, !cfg.valid || something_failed, "C05/valid-config-accepted: a valid stream configuration was refused although nothing failed");
+                if cfg.valid {
+                    vcheck!(C07, something_failed, "C07/err-iff-failed: Popen::create failed although every step succeeded");
+                    let code = match e {
+                        PopenError::IoError(ref ioe) => ioe.raw_os_error(),
+                        _ => None,
+                    };
+                    vcheck!(C07, code == Some(injected), "C07/error-carries-os-error: the error does not carry the OS error of the step that failed");
+                }
+                // no descriptor of the attempt left open, whatever failed
+                let mut i = 5;
+                while i < mk::NFD {
+                    vcheck!(C07, mk::FDT[i].obj == Obj::Closed, "C07/no-descriptor-left: a descriptor opened by (or handed to) the failed attempt is still open in the parent");
+                    i += 1;
+                }
+                vcheck!(C07, mk::FDT[3].obj == Obj::PipeW(0) && mk::FDT[4].obj == Obj::PipeR(1), "C07/unrelated-descriptors-untouched: the failed attempt closed a descriptor it did not open");
+                if mp::FORKS == 1 {
+                    vcheck!(C07, mp::KIDS[0].st == mp::KidSt::Reaped && mp::KIDS[0].reaped_by_us, "C07/failed-child-reaped: the child of a failed launch was left unreaped (zombie)");
+                }
+                std::mem::forget(e);
+            }
+        }
+    }
+
+    /// Successful launches, every stream configuration.
+    #[kani::proof]
+    #[kani::stub(get_standard_stream, gss)]
+    #[kani::stub(crate::posix::fcntl, crate::mk::fcntl_model)]
+    fn h_spawn_parent() {
+        mk::link_model();
+        unsafe { spawn_parent(any_kinds(), kani::any(), 0, false, 0, kani::any()) }
+    }
+
+    /// Failing launches: every stream configuration x every fault point
+    /// (k-th pipe/fcntl/fork call, or a child-side failure reported on the
+    /// status pipe) x any errno x detached.
+    #[kani::proof]
+    #[kani::stub(get_standard_stream, gss)]
+    #[kani::stub(crate::posix::fcntl, crate::mk::fcntl_model)]
+    fn h_fail_parent() {
+        mk::link_model();
+        let fault_at: u32 = kani::any();
+        kani::assume(fault_at <= 17);
+        let launch_fails: bool = kani::any();
+        kani::assume(fault_at != 0 || launch_fails);
+        unsafe { spawn_parent(any_kinds(), kani::any(), fault_at, launch_fails, mk::any_errno(), kani::any()) }
+    }
 }
